@@ -162,7 +162,8 @@ def _lookup_ids(font, tag, interner):
 
 
 def feature_variations(font, tags, interner):
-    """-> {"feat": [[lookup ids]], "recs": [{"box": [[axis, lo, hi]], "subs": [[feature, [ids]]]}]} over GSUB then GPOS"""
+    """-> {"feat": [[tag id, lookup ids..]], "recs": [{"box": [[axis, lo, hi]], "subs": [[feature, [tag id, ids..]]]}]} (GSUB);
+    a feature without lookups does nothing, so TLC compares the active features that have lookups"""
     feat, recs = [], []
     for tag in ("GSUB",):
         if tag not in font:
@@ -173,7 +174,7 @@ def feature_variations(font, tags, interner):
         ids = _lookup_ids(font, tag, interner)
         off = len(feat)
         for fr in table.FeatureList.FeatureRecord:
-            feat.append([ids[i] for i in fr.Feature.LookupListIndex])
+            feat.append([interner(("tag", fr.FeatureTag))] + [ids[i] for i in fr.Feature.LookupListIndex])
         fvt = getattr(table, "FeatureVariations", None)
         if fvt is None:
             continue
@@ -187,7 +188,8 @@ def feature_variations(font, tags, interner):
                 box.append([c.AxisIndex + 1, fl2fi(c.FilterRangeMinValue, 14), fl2fi(c.FilterRangeMaxValue, 14)])
             subs = []
             for sr in rec.FeatureTableSubstitution.SubstitutionRecord:
-                subs.append([off + sr.FeatureIndex + 1, [ids[i] for i in sr.Feature.LookupListIndex]])
+                tagid = interner(("tag", table.FeatureList.FeatureRecord[sr.FeatureIndex].FeatureTag))
+                subs.append([off + sr.FeatureIndex + 1, [tagid] + [ids[i] for i in sr.Feature.LookupListIndex]])
             recs.append({"box": box, "subs": subs})
     return {"feat": feat, "recs": recs}
 
@@ -204,6 +206,9 @@ def cff2_points(font, glyph, regions):
     from fontTools.cffLib.specializer import programToCommands, generalizeCommands
 
     cff = font["CFF2"].cff
+    if not getattr(cff, "_c08_desubr", False):
+        cff.desubroutinize()          # as the instancer does; the projected font object is a private copy
+        cff._c08_desubr = True
     top = cff.topDictIndex[0]
     cs = top.CharStrings[glyph]
     cs.decompile()
@@ -215,7 +220,10 @@ def cff2_points(font, glyph, regions):
             return 0
         return store.VarData[vsindex if vsindex is not None else 0].VarRegionCount
 
-    cmds = generalizeCommands(programToCommands(cs.program, getNumRegions=nreg))
+    try:
+        cmds = generalizeCommands(programToCommands(cs.program, getNumRegions=nreg))
+    except Exception as e:
+        raise OutOfDomain("CFF2 charstring not generalisable (%s)" % type(e).__name__)
     vsindex = getattr(cs.private, "vsindex", 0) if hasattr(cs, "private") else 0
     pos = [[F(0), {}, 0], [F(0), {}, 0]]  # x, y: base, {region id: delta}, blended operands
     pts = []
